@@ -42,7 +42,7 @@ package corebgp
 //@   requires f.closeCh != nil && f.doneCh != nil && (chanClosed(f.closeCh) == onceDone(f.closeOnce))
 //@   modifies fsmRunning(f), chanClosed(f.closeCh), onceDone(f.closeOnce)
 //@   ensures [joined] !fsmRunning(f)
-//@   ensures [close_requested] chanClosed(f.closeCh)
+//@   ensures [close_requested] chanClosed(f.closeCh) && onceDone(f.closeOnce)
 
 //@ func peer.disableFSM
 //@   requires [inv] peerInv(p) && (i == 0 || i == 1)
@@ -135,7 +135,7 @@ package corebgp
 //@   requires p.closeCh != nil && p.doneCh != nil && (chanClosed(p.closeCh) == onceDone(p.closeOnce))
 //@   modifies peerRunning(p), chanClosed(p.closeCh), onceDone(p.closeOnce)
 //@   ensures [joined] !peerRunning(p)
-//@   ensures [close_requested] chanClosed(p.closeCh)
+//@   ensures [close_requested] chanClosed(p.closeCh) && onceDone(p.closeOnce)
 
 //@ func peer.incomingConnection
 //@   requires p.closeCh != nil && p.inConnCh != nil && conn != nil
@@ -144,3 +144,14 @@ package corebgp
 //@   modifies connClosed(conn)
 //@   ensures [handed_or_closed] handed || connClosed(conn)
 //@   ensures [not_closed_when_handed] handed ==> connClosed(conn) == old(connClosed(conn))
+
+//@ func notificationError.Error returns (s)
+//@   requires n.notification != nil
+
+// the FSM's own channels: selected by its immutable index (no access to p.fsms)
+//@ func peer.getFSMTransitionCh returns (c)
+//@   requires f != nil && (f.index == 0 || f.index == 1)
+//@   ensures c == p.transitionCh[f.index]
+//@ func peer.getFSMErrorCh returns (c)
+//@   requires f != nil && (f.index == 0 || f.index == 1)
+//@   ensures c == p.errorCh[f.index]
